@@ -53,14 +53,19 @@ class NSGAIIElitePopulationSelectionStrategy:
                 elite_population.extend(individuals)
             else:
                 n = self._population_size - len(elite_population)
-                _crowding_distance_sort(individuals)
+                # Ties in the crowding distance keep the order of the per-objective sort, which
+                # must therefore not depend on the direction of the objectives.
+                signs = [-1.0 if d == StudyDirection.MAXIMIZE else 1.0 for d in study.directions]
+                _crowding_distance_sort(individuals, signs)
                 elite_population.extend(individuals[:n])
                 break
 
         return elite_population
 
 
-def _calc_crowding_distance(population: list[FrozenTrial]) -> defaultdict[int, float]:
+def _calc_crowding_distance(
+    population: list[FrozenTrial], signs: Sequence[float] | None = None
+) -> defaultdict[int, float]:
     """Calculates the crowding distance of population.
 
     We define the crowding distance as the summation of the crowding distance of each dimension
@@ -81,14 +86,15 @@ def _calc_crowding_distance(population: list[FrozenTrial]) -> defaultdict[int, f
         return manhattan_distances
 
     for i in range(len(population[0].values)):
-        population.sort(key=lambda x: x.values[i])
+        sign = 1.0 if signs is None else signs[i]
+        population.sort(key=lambda x: sign * x.values[i])
 
         # If all trials in population have the same value in the i-th dimension, ignore the
         # objective dimension since it does not make difference.
         if population[0].values[i] == population[-1].values[i]:
             continue
 
-        vs = [-float("inf")] + [trial.values[i] for trial in population] + [float("inf")]
+        vs = [-float("inf")] + [sign * trial.values[i] for trial in population] + [float("inf")]
 
         # Smallest finite value.
         v_min = next(x for x in vs if x != -float("inf"))
@@ -108,8 +114,10 @@ def _calc_crowding_distance(population: list[FrozenTrial]) -> defaultdict[int, f
     return manhattan_distances
 
 
-def _crowding_distance_sort(population: list[FrozenTrial]) -> None:
-    manhattan_distances = _calc_crowding_distance(population)
+def _crowding_distance_sort(
+    population: list[FrozenTrial], signs: Sequence[float] | None = None
+) -> None:
+    manhattan_distances = _calc_crowding_distance(population, signs)
     population.sort(key=lambda x: manhattan_distances[x.number])
     population.reverse()
 
